@@ -34,7 +34,7 @@
  "name": "undo_flush",
  "props": ["C12"],
  "level": "P",
- "tier": "wip",
+ "tier": "obs",
  "harness": "h_flush",
  "replace": ["write_undo_indexes"],
  "sources": ["lib/ext2fs/io_manager.c"],
